@@ -30,15 +30,15 @@ func init() {
 }
 
 type c02Cfg struct {
-	Rows     []string `json:"rows"`
-	Tpl      int      `json:"template"` // 0: "[{{.items}}]"  1: "hd {{.val}}\n[{{.items}}]\n--"
-	Menu     int      `json:"ordinary_menu_entries"`
-	MSink    bool     `json:"msink"`
-	Next     bool     `json:"next_configured"`
-	Prev     bool     `json:"prev_configured"`
-	LongLbl  bool     `json:"long_labels"`
-	Size     uint32   `json:"output_size"`
-	Mode     string   `json:"mode"`
+	Rows    []string `json:"rows"`
+	Tpl     int      `json:"template"` // 0: "[{{.items}}]"  1: "hd {{.val}}\n[{{.items}}]\n--"
+	Menu    int      `json:"ordinary_menu_entries"`
+	MSink   bool     `json:"msink"`
+	Next    bool     `json:"next_configured"`
+	Prev    bool     `json:"prev_configured"`
+	LongLbl bool     `json:"long_labels"`
+	Size    uint32   `json:"output_size"`
+	Mode    string   `json:"mode"`
 }
 
 func (g c02Cfg) labels() (nx, pv string) {
@@ -256,7 +256,9 @@ func c02Walk(g c02Cfg, vis func(pages int, vacuous bool)) (sig, msg string, reqs
 	} else {
 		s = app.NewSession(a, engine.Config{OutputSize: g.Size}, app.LongLived)
 	}
-	isCatch := func(r app.Resp) bool { return strings.Contains(r.Out, "CATCH") && s.St != nil && len(s.St.ExecPath) > 0 && s.St.ExecPath[len(s.St.ExecPath)-1] == "_catch" }
+	isCatch := func(r app.Resp) bool {
+		return strings.Contains(r.Out, "CATCH") && s.St != nil && len(s.St.ExecPath) > 0 && s.St.ExecPath[len(s.St.ExecPath)-1] == "_catch"
+	}
 	content := g.content()
 	maxPages := len(g.Rows) + 3
 	var pages []c02Page
